@@ -69,3 +69,59 @@ Theorem scan_total_refuted_before_fix : forall (fuel : nat) (level : N) (s : sca
   level <> 0 -> comment_loop_orig fuel level s [] = OutOfFuel.
 Proof. exact comment_loop_orig_diverges. Qed.
 Print Assumptions scan_total_refuted_before_fix.
+
+(* ------------------------------------------------------------------ the PARSER terminates on every
+   input (Front/ParseTotal.v; Front/ParseExpr.v is the function-by-function model of src/parse.rs,
+   tied to it on expression texts, function bodies and whole programs on every run): a fuel LINEAR
+   in the number of tokens (slope 1) is enough for every token list - every loop iteration and every
+   nesting level consumes a token - and the result does not depend on the fuel once it suffices. *)
+From GV Require Import Front.ParseExpr Front.ParseTotal.
+
+Theorem C07_parser_terminates_on_every_program_text : forall fuel ts,
+  (length ts + 4 <= fuel)%nat -> parse_program_text fuel ts <> PNoFuel.
+Proof. exact parse_program_text_total. Qed.
+Print Assumptions C07_parser_terminates_on_every_program_text.
+
+Theorem C07_parser_terminates_on_every_block_text : forall fuel ts,
+  (length ts + 5 <= fuel)%nat -> parse_block_text fuel ts <> PNoFuel.
+Proof. exact parse_block_text_total. Qed.
+Print Assumptions C07_parser_terminates_on_every_block_text.
+
+Theorem C07_parser_terminates_on_every_literal_text : forall fuel ts,
+  (length ts + 1 <= fuel)%nat -> parse_literal_text fuel ts <> PNoFuel.
+Proof. exact parse_literal_text_total. Qed.
+Print Assumptions C07_parser_terminates_on_every_literal_text.
+
+Theorem C07_parser_result_independent_of_fuel : forall f f' ts r,
+  parse_program_text f ts = r -> r <> PNoFuel -> (f <= f')%nat -> parse_program_text f' ts = r.
+Proof. exact parse_program_text_fuel_independent. Qed.
+Print Assumptions C07_parser_result_independent_of_fuel.
+
+(* the fuel the extracted driver uses in the tie is enough *)
+Theorem C07_parser_driver_fuel_suffices : forall ts,
+  parse_program_text (80 + 40 * length ts) ts <> PNoFuel.
+Proof. exact parse_program_text_driver. Qed.
+Print Assumptions C07_parser_driver_fuel_suffices.
+
+(* ------------------------------------------------------------------ the CHECKER never panics on what
+   the parser produces (Check/InferTotal.v, Front/ParseWf.v; Check/Infer.v is the model of
+   src/check.rs, tied to it): the model returns [CErr E_Panic] exactly where check.rs would panic
+   (`.first().unwrap()` on an empty array literal, a match without arms); the parser never builds
+   such trees, so no program TEXT can make the checker panic. *)
+From GV Require Import Check.UAst Check.Infer Check.InferTotal Front.ParseWf.
+
+Theorem C07_checker_never_panics_on_well_formed_trees : forall intern P,
+  wf_program P -> forall fuel, check_program intern fuel P <> CErr E_Panic.
+Proof. exact no_panic. Qed.
+Print Assumptions C07_checker_never_panics_on_well_formed_trees.
+
+Theorem C07_parser_output_is_well_formed : forall f ts up st main,
+  parse_program_text f ts = POk up st -> wf_program (uprogram_of_parsed up main).
+Proof. exact parser_output_wf. Qed.
+Print Assumptions C07_parser_output_is_well_formed.
+
+Theorem C07_front_end_never_panics : forall ts f up st main intern g,
+  parse_program_text f ts = POk up st ->
+  check_program intern g (uprogram_of_parsed up main) <> CErr E_Panic.
+Proof. exact front_end_never_panics. Qed.
+Print Assumptions C07_front_end_never_panics.
